@@ -3,6 +3,7 @@ mod proj;
 mod util;
 mod tables;
 mod c04;
+mod c13;
 mod c12;
 mod alias;
 mod seq;
@@ -65,6 +66,7 @@ fn main() {
         ("replay", "C15") => alias::replay(),
         ("record", "C15") => alias::record(&args[3], args.get(4).and_then(|s| s.parse().ok()).unwrap_or(1000)),
         ("replay", "C12") => c12::replay(),
+        ("replay", "C13") => c13::replay(),
         ("replay", "pipeline") => pipeline::replay_schedules(),
         ("record", "C02") | ("record", "C06") | ("record", "C07") | ("record", "C08") | ("record", "C14") =>
             laws::record(id, &args[3], &args[4], args.get(5).and_then(|s| s.parse().ok()).unwrap_or(5)),
